@@ -442,9 +442,10 @@ theorem topOf?_spec {sp : Forest.St} (hnd : (sp.tops.flatMap ids).Nodup) {a i : 
   exact hkmin i hik (by rw [heq]; simpa using hc)
 
 /-- `St.move` is refined by `mpt_node_move` (list reference kept in a variable of the caller) -/
-theorem st_move_refines {s : Store} {sp sp' : Forest.St} (hR : Realises s sp.tops) {a b m : Nat}
-    (h : sp.move a b = some (sp', m)) :
-    ∃ slot r, s.move s.fuel slot (some a) b = .ok r ∧ r.2 = m ∧ Realises r.1 sp'.tops := by
+theorem st_move_refines_slot {s : Store} {sp sp' : Forest.St} (hR : Realises s sp.tops) {a b m : Nat}
+    (h : sp.move a b = some (sp', m)) (slot : Store.Slot)
+    (hslot : ∀ la S i ps, la ∈ sp.tops → SibsAt a la S i ps → ∀ p, slot = .kids p → ps = some p) :
+    ∃ r, s.move s.fuel slot (some a) b = .ok r ∧ r.2 = m ∧ Realises r.1 sp'.tops := by
   simp only [Forest.St.move] at h
   cases hta : sp.topOf? a with
   | none => simp [hta] at h
@@ -476,8 +477,8 @@ theorem st_move_refines {s : Store} {sp sp' : Forest.St} (hR : Realises s sp.top
         omega
       obtain ⟨rest, hperm⟩ := two_tops hla hlb hne
       have hR' := hR.perm hperm.symm
-      obtain ⟨s', h1, h2⟩ := move_refines (slot := .loc) hR' hata hatb (by intro p hp; cases hp)
-      refine ⟨.loc, (s', _), h1, hm, ?_⟩
+      obtain ⟨s', h1, h2⟩ := move_refines (slot := slot) hR' hata hatb (hslot la S i ps hla hata)
+      refine ⟨(s', _), h1, hm, ?_⟩
       -- the lists the specification produces
       generalize hA : applyAt ps (fun _ => S.take i ++ (merge (S.drop i) D d).1) la = A' at h2
       generalize hB : applyAt pd (fun _ => (merge (S.drop i) D d).2.1) lb = B' at h2
@@ -548,5 +549,11 @@ theorem st_move_refines {s : Store} {sp sp' : Forest.St} (hR : Realises s sp.top
       · simp [List.filter_cons, hAe, hfB, hfr]
       · simp [List.filter_cons, hAe, hfB, hfr]
 
+
+/-- `St.move` is refined by `mpt_node_move` (list reference kept in a variable of the caller) -/
+theorem st_move_refines {s : Store} {sp sp' : Forest.St} (hR : Realises s sp.tops) {a b m : Nat}
+    (h : sp.move a b = some (sp', m)) :
+    ∃ slot r, s.move s.fuel slot (some a) b = .ok r ∧ r.2 = m ∧ Realises r.1 sp'.tops :=
+  ⟨.loc, st_move_refines_slot hR h .loc (by intro _ _ _ _ _ _ p hp; cases hp)⟩
 
 end Mpt.Nodes
